@@ -3,3 +3,5 @@ import GoImap.Props.C15
 #print axioms GoImap.C15.contains_star_iff
 #print axioms GoImap.C15.merge_union
 #print axioms GoImap.C15.merge_fail
+#print axioms GoImap.C15.canon_iff_canonical
+#print axioms GoImap.C15.search_first
